@@ -44,8 +44,9 @@ TRUSTED = [
     "not modelled (checked only): autoNK, the calculators themselves, TABresult.to_grid",
 ]
 RULE = ("corr: (grid N per direction in 1..12, every/some factorisation N = div x fft, symmetry group on/off, refined "
-        "K-lists) -> the (k, weight) list of the real Grid + Data_K objects; oracle: (random system, N in {4,6} per "
-        "direction, >= 2 factorisations incl. NKFFT below NKFFT_recommended, fftlib, tetra) x calculator; (model with a "
+        "K-lists) -> the (k, weight) list of the real Grid + Data_K objects; oracle: (random system, N in {3,4,6} per "
+        "direction, always the two extreme factorisations NKdiv=N x NKFFT=1 and NKdiv=1 x NKFFT=N plus 1-2 random ones incl. "
+        "NKFFT below NKFFT_recommended, both fftlibs, tetra on/off) x calculator; (model with a "
         "C4 / C6 / cubic point group, ALL factorisations of (6,6,2), (4,4,2), (4,4,4), (6,6,6 sample), use_irred_kpt on/off): "
         "refused by Grid() or equal to the full-grid reference; non-trivial = "
         "more than one K-point and more than one FFT point, or a calculator result that is not identically zero; "
@@ -356,14 +357,16 @@ def oracle_runs(ctx, scale):
             # the thorough tier runs all of them)
             names = sorted(rng.sample(cheap, min(24, len(cheap)))) + rng.sample(exp, min(1, len(exp)))
             ctx.note(f"quick tier sample of calculators: {names}")
-        N = [rng.choice([4, 6]) for _ in range(3)]
-        N[rng.randrange(3)] = 4
+        N = [rng.choice([3, 4, 6]) for _ in range(3)]
+        N[rng.randrange(3)] = rng.choice([3, 4])
         if ctx.tier == "quick" and N.count(6) > 1:
             N[N.index(6)] = 4
         facs = [factorisations(n) for n in N]
         ref = ([n for n in N], [1, 1, 1])
-        others = []
-        for _ in range(ctx.n(2, 3)):
+        # the two EXTREME factorisations are always compared: the reference is NKdiv=N x NKFFT=(1,1,1), the first of the
+        # others is the pure-FFT one NKdiv=(1,1,1) x NKFFT=N (run with both FFT libraries, tetra on and off)
+        others = [([1, 1, 1], list(N))]
+        for _ in range(ctx.n(1, 2)):
             for _try in range(20):
                 c = [rng.choice(f) for f in facs]
                 div, fft = [x[0] for x in c], [x[1] for x in c]
